@@ -27,6 +27,8 @@ var Props = map[string]PropFn{
 	"C11": propC11,
 	"C10": propC10,
 	"C19": propC19,
+	"C08": propC08,
+	"C09": propC09,
 }
 
 func propC01(c *Ctx) int {
@@ -329,6 +331,102 @@ func propC19(c *Ctx) int {
 	return c.Finish("model_checking", []string{
 		"bound: four fixed projects (MACRO, PASTE and an unpasted macro body written only in INCLUDEd files; HTTP kitchen sink with MACRO/PASTE/INCLUDE; JSON-RPC; directives only inside an unused MACRO body and only inside an included file) x banned set {b1,b2} symbolic over all 31 kinds",
 		"oracle: some banned kind occurs in the project text => rejected with the not-allowed error located on a keyword of a banned kind; none occurs => same tree and catalog size as without the option",
+		contractLoc, contractRune,
+	}, map[string]interface{}{})
+}
+
+// LayoutDocSites: number of trivia sites per layout document (upper bounds; a site index beyond the end is a no-op in the harness).
+var LayoutDocSites = []int{57, 11, 40, 3, 4}
+
+func propC08(c *Ctx) int {
+	thorough := c.Tier == "thorough"
+	base := Job{Pkg: "core", Stubs: []string{"loc", "rune"}, PanicIsViolation: true, MaxPaths: 200000, Timeout: time.Hour, MaxSteps: 8000000, MaxDepth: 1000, Quiet: true,
+		AllowDrops: []string{"on symbolic operand"}}
+	// whole-document rewrites
+	for doc := int64(0); doc < 5; doc++ {
+		for mode := int64(0); mode <= 3; mode++ {
+			ks := []int64{1}
+			if mode == 2 {
+				ks = []int64{1, 2}
+				if thorough {
+					ks = []int64{1, 2, 3}
+				}
+			}
+			for _, k := range ks {
+				j := base
+				j.Name, j.Fn, j.Params = fmt.Sprintf("rewrite doc#%d mode=%d k=%d", doc, mode, k), "HLayoutWhole", map[string]int64{"doc": doc, "mode": mode, "k": k}
+				c.RunJob(j)
+			}
+		}
+	}
+	// trivia inserted at every legal site
+	k := int64(2)
+	step := 3
+	if thorough {
+		k, step = 3, 1
+	}
+	off := int(c.Seed) % step
+	for doc, n := range LayoutDocSites {
+		for site := 0; site < n+2; site++ {
+			if site%step != off && n > 6 {
+				continue
+			}
+			j := base
+			j.Name, j.Fn, j.Params = fmt.Sprintf("trivia doc#%d site=%d +%dB", doc, site, k), "HLayoutTrivia", map[string]int64{"doc": int64(doc), "site": int64(site), "k": k}
+			c.RunJob(j)
+		}
+	}
+	// parameter quoting, annotation style, description layout
+	for doc := int64(0); doc < 3; doc++ {
+		for _, fn := range []string{"HLayoutQuote", "HLayoutAnnotation"} {
+			j := base
+			j.Name, j.Fn, j.Params = fmt.Sprintf("%s doc#%d", fn, doc), fn, map[string]int64{"doc": doc}
+			c.RunJob(j)
+		}
+	}
+	descr := [][2]int64{{2, 1}, {3, 1}}
+	if thorough {
+		descr = append(descr, [2]int64{2, 2})
+	}
+	for _, mw := range descr {
+		j := base
+		j.Name, j.Fn, j.Params = fmt.Sprintf("description unit lines=%d width=%d", mw[0], mw[1]), "HDescriptionUnit", map[string]int64{"m": mw[0], "w": mw[1]}
+		j.Stubs = nil
+		c.RunJob(j)
+	}
+	return c.Finish("model_checking", []string{
+		"relational: 5 skeleton projects (3 accepted incl. MACRO/PASTE/INCLUDE/regex/enum/descriptions/explicit contexts; 2 rule-rejected) built twice, skeleton vs rewrite; equal catalog digest (every entity, order, names, annotations, descriptions, schema text without blanks) or same error class with the error index moved by the inserted length",
+		fmt.Sprintf("rewrites: LF->CRLF, LF->CR, uniform indentation by 1..2(3) symbolic blanks, a symbolic trailing blank on every line; %d symbolic trivia bytes (blank line / '#' comment line / trailing blanks / trailing comment) at every %s legal site (sites = positions outside bodies, description texts and annotations, found by scanning the skeleton)", k, map[bool]string{true: "", false: "3rd (seed-rotated)"}[thorough]),
+		"quoting a bare parameter (content symbolic), // vs /* */ annotation (content symbolic), Description text: line-ending convention, uniform indent and ( ) wrapping over symbolic lines",
+		"annotation whitespace collapsing is modelled exactly for the pattern \\s+ (regexp model, DESIGN.md §2.5); CR handling inside schema bodies belongs to jsight-schema-core (executed from its SSA)",
+		contractLoc, contractRune,
+	}, map[string]interface{}{})
+}
+
+func propC09(c *Ctx) int {
+	thorough := c.Tier == "thorough"
+	base := Job{Pkg: "core", Fn: "HIncludeSplit", Stubs: []string{"loc", "rune"}, PanicIsViolation: true, MaxPaths: 500000, Timeout: time.Hour, MaxSteps: 8000000, MaxDepth: 1000,
+		AllowDrops: []string{"on symbolic operand"}}
+	maxSpan := int64(3)
+	if thorough {
+		maxSpan = 8
+	}
+	for doc := int64(0); doc < 5; doc++ {
+		for span := int64(1); span <= maxSpan; span++ {
+			j := base
+			j.Name, j.Params = fmt.Sprintf("split doc#%d span=%d", doc, span), map[string]int64{"doc": doc, "span": span, "depth": 1}
+			c.RunJob(j)
+			if span >= 2 && (thorough || span == 3) {
+				j := base
+				j.Name, j.Params = fmt.Sprintf("split doc#%d span=%d depth=2", doc, span), map[string]int64{"doc": doc, "span": span, "depth": 2}
+				c.RunJob(j)
+			}
+		}
+	}
+	return c.Finish("model_checking", []string{
+		fmt.Sprintf("relational: 5 skeleton projects (3 accepted, 2 rule-rejected) vs the same project with the run of 1..%d consecutive directive blocks starting at a symbolic directive boundary moved into piece.jst and replaced by INCLUDE (depth 2: the piece is cut once more into inner.jst); symbolic: cut position, LF/CRLF after INCLUDE, tail of the included file (as is / no final line end / extra blank line / comment line where trivia is legal)", maxSpan),
+		"oracle: equal catalog digest (every entity, order, names, annotations, descriptions, schema text) or the same error class, located in the file that now holds the directive at the corresponding index",
+		"pieces are cut at directive boundaries only (not inside a directive); JSIGHT stays in the root file; file system = virtual",
 		contractLoc, contractRune,
 	}, map[string]interface{}{})
 }
